@@ -17,4 +17,14 @@ __CPROVER_assigns (__CPROVER_object_upto (qp, (nn - dn + 1) * 8), __CPROVER_obje
 __CPROVER_ensures (g_div_calls == __CPROVER_old (g_div_calls) + 1 && g_dnn == nn && g_ddn == dn)
 __CPROVER_ensures (g_dnum == V_OLDSEL (gk < nn, np + gk) && g_dden == V_OLDSEL (gj < dn, dp + gj))
 __CPROVER_ensures ((V_OLDSEL (nn >= 1, np + (nn - 1)) != 0 && qp[nn - dn] == 0 && nn > dn) ==> qp[nn - dn - 1] != 0);
+/* mpn_tdiv_q (quotient only; ASSUMED shape contract, from the operand requirements stated above its definition: nn >= dn >= 1, dp[dn-1] != 0,
+   no overlap between the N, D and Q areas; N and D untouched; nn-dn+1 quotient limbs written) */
+void __gmpn_tdiv_q (mp_ptr qp, mp_srcptr np, mp_size_t nn, mp_srcptr dp, mp_size_t dn)
+__CPROVER_requires (1 <= dn && dn <= nn && nn <= V_ZMAX && V_W_OK (qp, nn - dn + 1) && V_R_OK (np, nn) && V_R_OK (dp, dn))
+__CPROVER_requires (dp[dn - 1] != 0 && 0 <= gk && 0 <= gj)
+__CPROVER_requires (V_SEPARATE (qp, nn - dn + 1, np, nn) && V_SEPARATE (qp, nn - dn + 1, dp, dn))
+__CPROVER_assigns (__CPROVER_object_upto (qp, (nn - dn + 1) * 8), g_div_calls, g_dnum, g_dden, g_dnn, g_ddn)
+__CPROVER_ensures (g_div_calls == __CPROVER_old (g_div_calls) + 1 && g_dnn == nn && g_ddn == dn)
+__CPROVER_ensures (g_dnum == V_OLDSEL (gk < nn, np + gk) && g_dden == V_OLDSEL (gj < dn, dp + gj))
+__CPROVER_ensures ((V_OLDSEL (nn >= 1, np + (nn - 1)) != 0 && qp[nn - dn] == 0 && nn > dn) ==> qp[nn - dn - 1] != 0);
 #endif
